@@ -224,6 +224,19 @@ def check(an: Analysis) -> None:
             if not protected:
                 ob.fail(aenter, aw[0].ast, "cancellation delivered while the disposables are being entered concurrently leaves the ones that already entered without exit", construct="await gather(<enter fan-out>)")
 
+    # (d) cancellation pending / delivered while the exit fan-out is awaited
+    ob = an.ob("C08.5d", "K10+K1", "the exit fan-out survives a cancellation delivered at its await: API fact - `gather` cancels its children with the awaiting task, and a child cancelled before its first step never runs - so the await is shielded (and waited out) or handled so that every disposable's __aexit__ is still started", [f"{D}.__aexit__"])
+    if exit_g is not None:
+        cx = exit_g[0]
+        awx = [n for n in gx.nodes if n.kind == "await" and n.ast.value is cx]  # type: ignore[union-attr]
+        if awx:
+            ob.inst(aexit, awx[0].ast)
+            protected = any(t.kind == "handler" for t in gx.exc_succ_for(awx[0], "CancelledError"))
+            if not protected:
+                ob.fail(aexit, awx[0].ast, "a cancellation that is pending when the scope is left (or arrives before the exit coroutines took their first step) cancels them unstarted: the disposables are never exited", construct="await gather(<exit fan-out>)")
+        else:
+            ob.inst(aexit, cx, "exit fan-out not awaited directly")
+
     # ------------------------------------------------------------------ C08.6 scope integration
     ob = an.ob("C08.6", "K1", "ScopeContext enters the disposables (awaited) before state/metrics are entered, and exits them exactly once per exit path on which they are present", ["context.access.ScopeContext.__aenter__", "context.access.ScopeContext.__aexit__"])
     sen = prog.fn("context.access.ScopeContext.__aenter__")
